@@ -126,6 +126,9 @@ class Encoded(Literal):
                 md.sxtype = ref
                 array.item.append(x)
                 continue
+            # Plain values are wrapped below and so bypass Literal.translate():
+            # give them their XSD lexical form here (e.g. True -> "true").
+            x = ref.resolve().translate(x, False)
             x = Factory.property(ref.name, x)
             md = x.__metadata__
             md.sxtype = ref
